@@ -99,8 +99,7 @@ class Model:
                 self.b0_loose = True
             return
         if method == "unbind":
-            self.st = CL
-            self.out = set()
+            self._close()
             return
         if self.role == "c":
             mid = ret
@@ -126,12 +125,20 @@ class Model:
             return
         self._retire(mid)
         if notice:
-            self.st = CL
+            self._close()
         elif method == "bind_response":
             if a.get("code", 0) != SASL_IN_PROGRESS:
                 self.st = OP
         elif self.st == B0:
             self.st = OP
+
+    def _close(self):
+        """A closed session has no operations in progress any more."""
+        self.st = CL
+        for mid in sorted(self.out):
+            self.retired.append(mid)
+        self.out = set()
+        self.srch = set()
 
     def _retire(self, mid):
         self.out.discard(mid)
@@ -198,12 +205,10 @@ class Model:
 
     def recv_commit(self, lights, raised):
         if raised:
-            self.st = CL
-            self.out = set()
+            self._close()
             return
         for lt in lights:
             self._recv_one(lt)
 
     def closed_by_error(self):
-        self.st = CL
-        self.out = set()
+        self._close()
